@@ -3,6 +3,7 @@ package main
 import (
 	"encoding/json"
 	"fmt"
+	"os"
 
 	"verif/harness/ph"
 )
@@ -50,37 +51,15 @@ func isSubsequence(small, big []string) bool {
 }
 
 func judgeC03(pc *parserCase, verbose bool) []string {
-	p := ph.Build(pc.Def, pc.Env)
-	defer p.Close()
-	o := p.Run(pc.Argv, true)
-	ex := ph.SpecParse(pc.Def, pc.Env, pc.Argv)
 	if verbose {
-		fmt.Printf("argv      : %q\nconfig    : %s\nobserved  : remaining=%q err=%q\nreference : remaining=%q err=%v(%s) unspecified=%v\n", pc.Argv, pc.Def.ConfigString(), o.Remaining, o.ParseErr, ex.Remaining, ex.Err, ex.ErrKind, ex.Unspec)
+		p := ph.Build(pc.Def, pc.Env)
+		o := p.Run(pc.Argv, true)
+		p.Close()
+		ex := ph.SpecParse(pc.Def, pc.Env, pc.Argv)
+		fmt.Printf("argv      : %q\nconfig    : %s\nobserved  : remaining=%q err=%q\nreference : remaining=%q (conservation view %q) err=%v(%s) unspecified=%v\n", pc.Argv, pc.Def.ConfigString(), o.Remaining, o.ParseErr, ex.Remaining, ex.RemainingAll, ex.Err, ex.ErrKind, ex.Unspec)
 	}
-	if o.Panic != "" || o.Hang {
-		return nil // C19's business
-	}
-	if o.HasErr {
-		return nil
-	}
-	var out []string
-	// (i) model-free: nothing invented, altered, duplicated or reordered
-	if !isSubsequence(o.Remaining, pc.Argv) {
-		out = append(out, fmt.Sprintf("remaining: %q is not an order-preserving sub-sequence of the input %q (a token was invented, altered, duplicated or moved)", o.Remaining, pc.Argv))
-	}
-	// (ii) exactly the tokens the reference model does not classify as consumed
-	if len(ex.Unspec) == 0 && !ex.Err {
-		if !eqStr(ex.Remaining, o.Remaining) {
-			out = append(out, fmt.Sprintf("remaining: got %q, want %q", o.Remaining, ex.Remaining))
-		}
-		// the dispatched command function receives the same list
-		for _, c := range o.Calls {
-			if !eqStr(c.Args, o.Remaining) {
-				out = append(out, fmt.Sprintf("remaining: CommandFn %q received %q but Parse returned %q", c.Path, c.Args, o.Remaining))
-			}
-		}
-	}
-	return out
+	msgs, _ := judgeC03x(pc)
+	return msgs
 }
 
 func eqStr(a, b []string) bool {
@@ -101,7 +80,7 @@ func init() {
 		ID:        "C03",
 		QuickSecs: 120, ThoroSecs: 1200,
 		Rule: "input-space exploration of the real parser: every argv of length <= L over a 21-token alphabet (positionals, empty string, lonesome dash, terminator, known/unknown long, short and bundled options, attached and detached values, multi-value string / int / map options with optional further values, command names) " +
-			"in all 18 mode x unknown-mode x require-order configurations; remaining compared (i) model-free as a sub-sequence of the input and (ii) with the reference model; states = argv prefixes visited, transitions = token appends, " +
+			"in all 18 mode x unknown-mode x require-order configurations plus 18 in which the command sets a different unknown-mode than the root; remaining compared (i) model-free as a sub-sequence of the input and (ii) with the reference model; states = argv prefixes visited, transitions = token appends, " +
 			"distinct_nontrivial = distinct (configuration, argv) cases inside the specified territory (every enumerated case is distinct by construction)",
 		Assume: []string{"tokens outside the alphabet and argv longer than L are not covered", "cases in the closed list of unspecified zones (DESIGN.md section 3) are only checked model-free"},
 		Run: func(c *RunCtx) {
@@ -110,14 +89,34 @@ func init() {
 				depth = 5
 			}
 			alpha := []string{"p", "", "-", "--", "--a", "-a", "-ab", "-az", "-zy", "--s", "--s=v", "--l", "--zz", "-z", "--zz=1", "c", "e", "v", "--n", "5", "--m=k=v"}
-			c.Res.Bounds = map[string]any{"L": depth, "alphabet": alpha, "configurations": 18}
+			ext := []string{"-dz", "--d", "-zd"} // options only the command knows, given before the command name, alone and bundled with an unknown letter
+			defs := configs(defC03, []bool{false, true})
+			// the command sets an unknown-mode of its own (SetUnknownMode after NewCommand)
+			for _, d := range configs(defC03, []bool{false}) {
+				for cu := 0; cu < 3; cu++ {
+					if cu == d.Unknown {
+						continue
+					}
+					d2 := *d
+					root := d.Root
+					kid := *d.Root.Cmds[0]
+					kid.Unknown = cu + 1
+					root.Cmds = []*ph.CmdDef{&kid}
+					d2.Root = root
+					defs = append(defs, &d2)
+				}
+			}
+			c.Res.Bounds = map[string]any{"L": depth, "alphabet": alpha, "alphabet_extension_for_argv_shorter_than_L": ext, "configurations": len(defs)}
 			dist := distinctSet{}
-			sw := &sweep{c: c, defs: configs(defC03, []bool{false, true}), alpha: alpha, depth: depth}
+			sw := &sweep{c: c, defs: defs, alpha: alpha, ext: ext, depth: depth}
 			sw.visit = func(def *ph.Def, argv []string) {
 				pc := &parserCase{Check: "C03", Def: def, Argv: argv}
 				res := c.Res
 				res.Evaluations++
 				res.Traces++
+				if os.Getenv("VERIF_DEBUG") != "" {
+					res.count("dbg_"+def.ConfigString()+fmt.Sprint(def.Root.Cmds[0].Unknown), 1)
+				}
 				msgs, info := judgeC03x(pc)
 				if info.inDomain {
 					res.count("in_domain_cases", 1)
@@ -131,6 +130,9 @@ func init() {
 				}
 				if info.command {
 					res.count("cases_selecting_a_command", 1)
+				}
+				if info.mixedPolicy {
+					res.count("successful_parses_with_different_unknown_modes_on_the_command_path", 1)
 				}
 				if len(msgs) > 0 {
 					res.violate(Violation{Prop: "C03", Msg: fmt.Sprintf("%s  [%s argv=%q]", msgs[0], def.ConfigString(), argv), Case: newCase("C03", def, nil, argv, true), Weight: len(argv), Known: knownSig("C03", msgs[0], pc)})
@@ -149,8 +151,8 @@ func init() {
 }
 
 type c03info struct {
-	inDomain, parseOK, unknownKept, command bool
-	key                                     uint64
+	inDomain, parseOK, unknownKept, command, mixedPolicy bool
+	key                                                  uint64
 }
 
 func judgeC03x(pc *parserCase) ([]string, c03info) {
@@ -167,13 +169,18 @@ func judgeC03x(pc *parserCase) ([]string, c03info) {
 	if !isSubsequence(o.Remaining, pc.Argv) {
 		out = append(out, fmt.Sprintf("remaining: %q is not an order-preserving sub-sequence of the input %q (a token was invented, altered, duplicated or moved)", o.Remaining, pc.Argv))
 	}
-	if len(ex.Unspec) == 0 && !ex.Err {
+	// (ii) exactly the tokens the reference model does not classify as consumed.  Which unknown-option policy applies
+	// (zone U15: different unknown modes along the command path) and whether Parse should have failed because of an
+	// unknown option are other properties' business: whenever Parse did succeed, conservation is owed.
+	onlyU15 := len(ex.Unspec) == 0 || (len(ex.Unspec) == 1 && ex.Unspec[0] == "U15")
+	if onlyU15 && (!ex.Err || ex.ErrKind == "unknown") {
 		info.inDomain = true
 		info.key = outcomeKey(o)
 		info.unknownKept = len(ex.Unknowns) > 0
 		info.command = ex.Level != ""
-		if !eqStr(ex.Remaining, o.Remaining) {
-			out = append(out, fmt.Sprintf("remaining: got %q, want %q", o.Remaining, ex.Remaining))
+		info.mixedPolicy = len(ex.Unspec) == 1
+		if !eqStr(ex.RemainingAll, o.Remaining) {
+			out = append(out, fmt.Sprintf("remaining: got %q, want %q", o.Remaining, ex.RemainingAll))
 		}
 		for _, c := range o.Calls {
 			if !eqStr(c.Args, o.Remaining) {
